@@ -32,7 +32,17 @@ JudgePair(r) ==
     THEN <<V(r.id, "deviation", "OperandCrossesNewline", "asl/lsr/rol/ror followed by a line starting with name-paren")>>
   ELSE <<V(r.id, "violation", "", "pair does not assemble to the concatenation")>>
 
-Judge(r) == IF r.kind = "pair" THEN JudgePair(r) ELSE JudgeEnc(r)
+(* process level: `mos build` of the one-instruction program; the .prg file is the load address followed by the encoding *)
+JudgeProc(r) ==
+  LET e == Encode(r.mn, r.form, r.v, r.addr) IN
+  IF e.k = "unspec" THEN <<>>
+  ELSE IF e.k = "bytes"
+    THEN IF r.exit = 0 /\ r.file = <<Lo(r.addr), Hi(r.addr)>> \o e.b THEN <<>>
+         ELSE <<V(r.id, "violation", "", "mos build: the .prg file is not load address + encoding")>>
+  ELSE IF r.exit # 0 /\ r.file = <<>> THEN <<>>
+  ELSE <<V(r.id, "violation", "", "mos build accepted a combination that must be rejected (or wrote a file)")>>
+
+Judge(r) == IF r.kind = "pair" THEN JudgePair(r) ELSE IF r.kind = "proc" THEN JudgeProc(r) ELSE JudgeEnc(r)
 
 Init == l = 1 /\ bad = <<>>
 Step == /\ l <= Len(Rec)
